@@ -57,6 +57,9 @@ def c03(tier, seed):
     runs[1]["scheds"] = ["nm_prioless", "c03_early_uc_low_then_high_selected"]
     runs.append(dict(cfg="pnatc", traces=w, drain=True, preds=C03_PREDS, scheds=["c03_supersede_while_nominating"]))
     runs.append(dict(cfg="p21inj", traces=w, drain=True, zerowait=True, preds=C03_PREDS, scheds=["c03_plain_uc_after_valued"]))
+    # a misbehaving peer that makes an agent switch role mid-session: what the old role left behind must not select anything
+    for c in ("pinjrole", "p21injrole"):
+        runs.append(dict(cfg=c, traces=w, drain=True, zerowait=True, preds=C03_PREDS))
     plan = {"runs": runs, "mc": [("p11", ["SelValidated"], {"MaxTicks": 2, "MaxLoss": 1, "MaxDup": 0}), ("plite", ["SelListed"], None)],
             "assumptions": SESSION_ASSUME}
     return session.run_property("C03", tier, seed, plan)
@@ -82,6 +85,9 @@ def c05(tier, seed):
     runs.append(dict(cfg="proleeq0", traces=w, drain=True, notime=True, preds=C05_PREDS))
     for c in ("prolenat", "prolenat0", "prolenatw", "prolenat0w"):   # the conflicting check arrives from a not yet signalled (peer-reflexive) source
         runs.append(dict(cfg=c, traces=w, drain=True, notime=True, zerowait=True, preds=C05_PREDS + ["C05_OppositeAtEnd", "C01_Mirror", "C01_Converges"]))
+    # the rule applied in the middle of a session (valid pairs, outstanding nominations): requests with the receiver's own role from a peer that misbehaves
+    for c in ("pinjrole", "p21injrole"):
+        runs.append(dict(cfg=c, traces=w, preds=C05_PREDS))
     plan = {"runs": runs, "mc": [("prole", ["Mirror"], None), ("prole0", ["Mirror"], None)], "assumptions": SESSION_ASSUME}
     return session.run_property("C05", tier, seed, plan)
 
